@@ -39,6 +39,8 @@ class HitOverlapsWith:
     def ensures(self, other, result):
         return result == (self._query_start < other._query_end and other._query_start < self._query_end)
 
+    returns = Bool
+
 
 @contract(f"{FILE}::HMMResult.is_contained_by", props=["C13"])
 class HitIsContainedBy:
@@ -49,6 +51,8 @@ class HitIsContainedBy:
 
     def ensures(self, other, result):
         return result == (other._query_start <= self._query_start and self._query_end <= other._query_end)
+
+    returns = Bool
 
 
 @spec
@@ -225,3 +229,43 @@ def prop_len(hit, hmm_lengths):
 @spec
 def long_enough(hit, hmm_lengths, threshold):
     return hit._query_end - hit._query_start > threshold * hmm_lengths[hit._hit_id]
+
+
+# ---- saved form ---------------------------------------------------------------------------------------
+INNER_SAVED = Rec("HMMResult", label="InnerHitSaved", _hit_id=Str, _query_start=Int, _query_end=Int, _evalue=Real,
+                  _bitscore=Real, _internal_hits=Const([]))
+HIT_SAVED = Rec("HMMResult", label="HitSaved", _hit_id=Str, _query_start=Int, _query_end=Int, _evalue=Real,
+                _bitscore=Real, _internal_hits=ListOf(INNER_SAVED, 0, 1))
+
+
+def _saved_form(hit):
+    return hit.to_json()
+
+
+@spec
+def same_hit_values(a, b):
+    return (a._hit_id == b._hit_id and a._query_start == b._query_start and a._query_end == b._query_end
+            and a._evalue == b._evalue and a._bitscore == b._bitscore)
+
+
+@contract(f"{FILE}::HMMResult.from_json", props=["C14", "C11"])
+class HitJsonRoundTrip:
+    """A domain hit (with at most one sub-hit, as NRPS/PKS subtypes have) rebuilt from its saved form is the same hit:
+    HMMResult.from_json(hit.to_json()) has the same values and the same sub-hit."""
+    variant = True     # the recursive call for the sub-hit is executed, not replaced by this contract
+    params = {"hit": HIT_SAVED}
+    ghost_params = ["hit"]
+    derived = {"data": _saved_form}
+
+    def requires(hit):
+        # what the constructor guarantees of any hit that can have been saved
+        return hit_ok(hit) and all(hit_ok(sub) and sub._query_start < hit._query_end
+                                   and hit._query_start < sub._query_end for sub in hit._internal_hits)
+
+    ensures = {
+        "rebuilt-hit-equals-the-saved-one": lambda hit, result:
+            same_hit_values(result, hit) and len(result._internal_hits) == len(hit._internal_hits)
+            and all(same_hit_values(result._internal_hits[k], hit._internal_hits[k])
+                    and len(result._internal_hits[k]._internal_hits) == 0
+                    for k in range(len(hit._internal_hits))),
+    }
